@@ -65,10 +65,21 @@ Fixpoint parse_fields (lines : list bytes) (acc : list (bytes * bytes)) : presul
     end
   end.
 
-Fixpoint get_header (name : bytes) (hs : list (bytes * bytes)) : option bytes :=
+(* msg.headers is a HeadersDictProxy: get() / [] return ALL values of the field joined with ", " *)
+Fixpoint header_values (name : bytes) (hs : list (bytes * bytes)) : list bytes :=
   match hs with
+  | [] => []
+  | (k, v) :: hs' => if ieqb k name then v :: header_values name hs' else header_values name hs'
+  end.
+Fixpoint join_cs (vs : list bytes) : bytes :=
+  match vs with
+  | [] => []
+  | v :: vs' => match vs' with [] => v | _ => v ++ [44; 32] ++ join_cs vs' end
+  end.
+Definition get_header (name : bytes) (hs : list (bytes * bytes)) : option bytes :=
+  match header_values name hs with
   | [] => None
-  | (k, v) :: hs' => if ieqb k name then Some v else get_header name hs'
+  | vs => Some (join_cs vs)
   end.
 
 Definition h_connection : bytes := [99;111;110;110;101;99;116;105;111;110].
